@@ -421,7 +421,12 @@ func (srv *server) registerClient(connect *packets.Connect, client *client) (ses
 	srv.statsManager.clientConnected(client.opts.ClientID)
 
 	if oldSession != nil {
-		if !oldSession.IsExpired(now) && !connect.CleanStart {
+		// the expiry interval of a session runs from the end of its last connection (offlineClients), not from CONNECT
+		expired := false
+		if t, ok := srv.offlineClients[client.opts.ClientID]; ok {
+			expired = now.After(t)
+		}
+		if !expired && !connect.CleanStart {
 			sessionResume = true
 		}
 		// clean old session
